@@ -8,7 +8,7 @@ plus store hygiene. (I4) "traversal visits every layer exactly once" is the theo
 `descendants_nodup`. All statements are about `Cfg.current`, the code as repaired; the
 theorems named `legacy_…` are the machine-checked counterexamples of the snapshot.
 -/
-import PsdVerif.Lemmas.TreeStep2
+import PsdVerif.Lemmas.TreeRefuse
 
 namespace PsdVerif.C10
 open PsdVerif PsdVerif.Tree
@@ -113,6 +113,70 @@ theorem inv_history (s : State) (ops : List Op) (i : Inv s) (h : Guarded .curren
     obtain ⟨hg, hne, hrest⟩ := h
     exact ih _ (inv_step_partial s op i hg hne) hrest
 
+/-! ### Refused operations leave the tree unchanged -/
+
+/-- **Refused ⇒ unchanged.** When an operation raises (anything but RecursionError) from a
+well-formed tree, every list, parent / document pointer, kind, flag and rectangle is what it was.
+(`SameTree` leaves out the caches — the assertion messages format groups with `repr`, which reads
+`bbox` — and the dirty flag, which `del g[k]` sets before the list raises IndexError.) No guard. -/
+theorem refused_unchanged (s : State) (op : Op) (e : Err) (i : Inv s)
+    (h : (step .current s op).2 = .error e) (hne : e ≠ .recursionError) : SameTree s (step .current s op).1 := by
+  have hself : Cfg.current.itemSelfCheck = true := rfl
+  revert h
+  cases op with
+  | append g x =>
+    simp only [step, Op.target]; split
+    · exact fun _ => SameTree.refl s
+    · exact fun h => opAppend_ref _ s g x e h hne
+  | extend g xs =>
+    simp only [step, Op.target]; split
+    · exact fun _ => SameTree.refl s
+    · exact fun h => opExtend_ref _ s g xs e h hne
+  | insert g k x =>
+    simp only [step, Op.target]; split
+    · exact fun _ => SameTree.refl s
+    · exact fun h => opInsert_ref _ s g k x e h hne
+  | remove g x =>
+    simp only [step, Op.target]; split
+    · exact fun _ => SameTree.refl s
+    · exact fun h => opRemove_ref _ s g x e h hne
+  | pop g k =>
+    simp only [step, Op.target]; split
+    · exact fun _ => SameTree.refl s
+    · exact fun h => opPop_ref _ s g k e h hne
+  | clear g =>
+    simp only [step, Op.target]; split
+    · exact fun _ => SameTree.refl s
+    · intro h; simp [opClear, finishRemove] at h
+  | setitem g k x =>
+    simp only [step, Op.target]; split
+    · exact fun _ => SameTree.refl s
+    · exact fun h => opSetitem_ref _ s g k x e h hne
+  | setslice g a b xs =>
+    simp only [step, Op.target]; split
+    · exact fun _ => SameTree.refl s
+    · exact fun h => opSetslice_ref _ s g a b xs e h hne
+  | delitem g k =>
+    simp only [step, Op.target]; split
+    · exact fun _ => SameTree.refl s
+    · exact fun h => opDelitem_ref _ s g k e h hne
+  | delslice g a b =>
+    simp only [step, Op.target]; split
+    · exact fun _ => SameTree.refl s
+    · intro h; simp [opDelslice] at h
+  | deleteLayer x => exact fun h => opDeleteLayer_ref x e h hne
+  | moveToGroup x g => exact fun h => opMoveToGroup_ref i x g e h hne
+  | moveUp x k => exact fun h => opMoveUp_ref i x k e h hne
+  | moveDown x k => exact fun h => opMoveUp_ref i x (-k) e h hne
+  | newGroup p => exact fun h => opNewGroup_ref i p e h hne
+  | groupLayers xs p => exact fun h => opGroupLayers_ref i hself rfl xs p e h hne
+  | newLayer p bx => intro h; simp [step, Op.target] at h
+  | newDoc bx => intro h; simp [step, Op.target] at h
+  | setVisible x v => exact fun h => opSetVisible_ref _ s x v e h hne
+  | setLeft x v => exact fun h => opSetOffset_ref _ s x true v e h hne
+  | setTop x v => exact fun h => opSetOffset_ref _ s x false v e h hne
+  | observe o => exact fun _ => observe_same s o
+
 /-! ### Consequences of the invariant -/
 
 /-- (I1) every layer below a document reports that document, and its parent pointer names the
@@ -213,6 +277,17 @@ to layer 1 it is visited twice (fixed: 277014b) -/
 theorem legacy_descendants_twice :
     (descLegacyF (fun x => if x = 1 then [2] else []) demo2 50 0).toOption = some [1, 3, 2, 2] ∧
     (desc demo2 0).toOption = some [1, 3, 2] := by
+  decide
+
+/-- why `refused_unchanged` speaks about the tree and not about the whole state: a refused
+operation may fill a cache (the assertion message formats the group) … -/
+theorem refused_fills_cache : demo.cache 2 = none ∧
+    (step .current demo (.extend 2 [2])).1.cache 2 = some BBox.zero := by decide
+
+/-- … and `del g[k]` sets the dirty flag before the list raises IndexError -/
+theorem delitem_refused_sets_dirty :
+    let s := { demo with dirty := fun _ => false }
+    (step .current s (.delitem 2 0)).2 = .error .indexError ∧ (step .current s (.delitem 2 0)).1.dirty 0 = true := by
   decide
 
 /-- Why the recursion limit appears in the hypotheses: with a budget of 1 the traversal made by
